@@ -689,6 +689,83 @@ class ModuleState(Sub):
 
 
 
+class ProcessState(Sub):
+    name = 'c02.process_state'
+    rule = ('for each formula of the alphabet, each documented function at arity 1..2 over a small pool, and 12 formulas with '
+            'operands of extreme size (integers of 5 000 digits, texts of 100 000 characters, 5 000 items): the interpreter-wide '
+            'settings a library has no business changing - recursion limit, int/str digit limit, decimal context, locale, time '
+            'zone, environment, warning filters, signal handlers, sys.path, stdout/stderr, thread count, float formatting - '
+            'are the same before and after the evaluation; non-trivial = all')
+    min_cases = 100
+    min_nontrivial = 100
+    BIG = ['xbig&"x"', 'LEN(xbig*xbig)', 'xbig+1', 'xbig*xbig', 'LEN(xlong&xlong)', 'UPPER(xlong)', 'SUM(xmany)', 'CONCATENATE(xmany)',
+           'xbig=xbig+1', 'TEXTJOIN(",",TRUE,xmany)', 'ABS(xbig)', 'xbig/3']
+
+    def cases(self, tier, unit):
+        from .c09 import supported_lists
+        for i in range(len(FORMULAS)):
+            yield ['f', i]
+        for i in range(len(self.BIG)):
+            yield ['big', i]
+        for ni in range(len(supported_lists()[0])):
+            yield ['fn', ni]
+
+    @staticmethod
+    def snapshot():
+        import decimal
+        import locale
+        import signal
+        import threading
+        import time
+        import warnings
+        return {
+            'recursionlimit': sys.getrecursionlimit(),
+            'int_max_str_digits': sys.get_int_max_str_digits() if hasattr(sys, 'get_int_max_str_digits') else None,
+            'decimal': repr(decimal.getcontext()),
+            'locale': repr(locale.setlocale(locale.LC_ALL)),
+            'tzname': repr(time.tzname), 'timezone': time.timezone,
+            'environ': sorted(os.environ.items()),
+            'warnings': len(warnings.filters),
+            'signals': [repr(signal.getsignal(s)) for s in (signal.SIGINT, signal.SIGTERM, signal.SIGALRM)],
+            'sys.path': list(sys.path), 'stdout': id(sys.stdout), 'stderr': id(sys.stderr),
+            'threads': threading.active_count(), 'switchinterval': sys.getswitchinterval(),
+            'float_repr': repr(0.1 + 0.2), 'trace': repr(sys.gettrace()), 'excepthook': id(sys.excepthook),
+            'displayhook': id(sys.displayhook), 'cwd': os.getcwd(), 'umask': None,
+        }
+
+    def check(self, env, case):
+        with seams():
+            w = getattr(env, '_c02pw', None)
+            if w is None:
+                w = env._c02pw = World(env)
+                big = 7
+                for _ in range(14):
+                    big = big * big + 3          # ~ 14 000 bits ... grown without int<->str conversion
+                big = big ** 2
+                w.p.set_variable('xbig', big)
+                w.p.set_variable('xlong', 'ab ' * 33334)
+                w.p.set_variable('xmany', list(range(5000)))
+            if case[0] == 'f':
+                texts = [FORMULAS[case[1]]]
+            elif case[0] == 'big':
+                texts = [self.BIG[case[1]]]
+            else:
+                from .c09 import supported_lists
+                name = supported_lists()[0][case[1]]
+                texts = ['%s(%s)' % (name, args) for args in ('1', '"a"', '{3,1,2}', '1,2', 'xbig', 'xlong,1')]
+            for text in texts:
+                a = self.snapshot()
+                w.parse(text)
+                b = self.snapshot()
+                env.evals += 1
+                env.nt()
+                if a != b:
+                    diff = ['%s: %r -> %r' % (k, str(a[k])[:80], str(b[k])[:80]) for k in a if a[k] != b[k]]
+                    return fail('evaluating %r changed interpreter-wide state: %s' % (text, '; '.join(diff[:4])), None, diff[:4])
+        return None
+
+
+
 SCALE_FORMULAS = ['#N/A', '1+', 'nosuchvar+A1', 'A1*B2+(', '1/0', 'SUM(A1:B2)+va', 'FBOOM(1)', 'FN(va)&A1', '"abc', 'NOSUCHFN(A1)']
 
 
@@ -727,4 +804,4 @@ class EvaluationScale(Sub):
         return None
 
 
-SUBS = [Histories(), Closure(), Retention(), Immutable(), ModuleState(), EvaluationScale()]
+SUBS = [Histories(), Closure(), Retention(), Immutable(), ModuleState(), ProcessState(), EvaluationScale()]
